@@ -22,7 +22,7 @@ from . import cluster_units as CU
 from .common import (bound_args, borrow, call_name, enclosing_loops, iteration_segments, path_must,
                      short, stmt_contains)
 
-FLOORS = {'C04.T1': 2, 'C04.T2': 7, 'C04.T3': 3, 'C04.T4': 1, 'C04.T6': 1, 'C04.T7': 1}
+FLOORS = {'C04.T1': 2, 'C04.T2': 7, 'C04.T3': 3, 'C04.T4': 1, 'C04.T6': 1, 'C04.T7': 1, 'C04.T8': 1}
 
 QUEUE = 'Scheduler.observation_queue'
 ORDER = ['UNSCHEDULED', 'SCHEDULED', 'RUNNING', 'FINISHED']
@@ -228,6 +228,37 @@ def t2(repo, res, canon, pc, logic):
     else:
         res.bad('C04.T2', s, sp, what, 'the scheduler no longer rejects proposals for already scheduled tasks and not '
                 'every algorithm tests it: a task can be submitted twice')
+    # ---- a proposal that is not submitted this round is handed back (not dropped) ------
+    res.rule('C04.T8', 'every proposal of a round is either submitted or still in the schedule the function returns')
+    sched = s.params[1]
+    rets = [n for n in walk_no_nested(s.node) if isinstance(n, ast.Return) and n.value is not None]
+    okk = bool(rets)
+    why = 'the scheduler returns no remaining schedule'
+    loops_ = [l for l in enclosing_loops(s, sp) if isinstance(l, ast.For)]
+    for r in rets:
+        first = r.value.elts[0] if isinstance(r.value, ast.Tuple) and r.value.elts else r.value
+        R = canon.c(first, sfr)
+        if not loops_:
+            okk, why = False, 'allocations are not made in a loop over the schedule'
+            break
+        for seg, how in iteration_segments(s, loops_[-1]):
+            if how == 'raise':
+                continue
+            spawned = any(stmt_contains(e, lambda x: x is sp) for e in seg)
+            effs = [ef for e in seg for ef in effects_of_event(canon, e)]
+            if R == sched:
+                removed = [ef for ef in effs if ef.loc == sched and ef.kind in ('pop', 'del', 'clear', 'popitem')]
+                if removed and not spawned:
+                    okk, why = False, ('a proposal is removed from the schedule (`%s`) on a path that does not submit it: '
+                                       'the task is never executed' % short(ast.unparse(removed[0].node)))
+            else:
+                kept = [ef for ef in effs if ef.loc == R and ef.kind == 'store' and ef.arg == T]
+                if not spawned and how == 'back' and not kept:
+                    okk, why = False, ('the schedule handed back (%s) does not receive a proposal that was not submitted this '
+                                       'round (a skipped duplicate or busy machine): an algorithm that relies on the carried-over '
+                                       'schedule never sees the task again and it never executes' % R)
+    (res.ok if okk else res.bad)('C04.T8', s, rets[0] if rets else None,
+                                 'unsubmitted proposals stay in the returned schedule', 'ok' if okk else why)
     # ---- duplicates in one round are skipped (not crashed on) --------------------
     ok_dup = True
     L = None
